@@ -130,6 +130,12 @@ class EvalModel:
         origins = trace_operand(body, op, through_calls=THROUGH)
         o = single_origin(origins)
         if o is None:
+            # a reference *selected* between two children (`match cond { true => lhs, false => rhs }` handed on as
+            # one `&ExprAST`): provenance ('SEL', p1, p2); only the conditional may do that (checked by O3)
+            if len(origins) == 2 and depth == 0:
+                ps = sorted({self._prov(body, x, depth + 1) for x in origins if x is not None}, key=str)
+                if len(ps) == 2 and all(p is not None and p[0] == 'F' and p[1] == 'Ternary' for p in ps) and {p[2] for p in ps} == {1, 2}:
+                    return ('SEL', ps[0], ps[1])
             return None
         return self._prov(body, o, depth)
 
@@ -228,6 +234,8 @@ def _norm(p):
 def prov_str(p):
     if p is None:
         return '⊤'
+    if p[0] == 'SEL':
+        return 'selected(%s | %s)' % (prov_str(p[1]), prov_str(p[2]))
     if p[0] == 'F':
         return '%s.%d' % (p[1], p[2])
     if p[0] == 'I':
@@ -391,6 +399,7 @@ def rule_order(em):
             else:
                 obs.append(ok('ORDER', key, 'child site evaluates %s' % ps, c.where()))
         known = [(c, p, ps, n) for (c, p, ps, n) in provs if p is not None and prov_root(p) is not None]
+        sels = [(c, p, ps, n) for (c, p, ps, n) in provs if p is not None and p[0] == 'SEL']
         # O1: order
         for i in range(len(known)):
             for j in range(len(known)):
@@ -444,6 +453,31 @@ def rule_order(em):
                     obs.append(ok('ORDER-O2', key, 'the two sites evaluating %s lie on mutually exclusive paths' % psa, cb.where()))
         # O3: laziness (Ternary)
         tern = [(c, p, ps, n) for (c, p, ps, n) in known if prov_root(p)[0] == 'Ternary']
+        if sels:
+            # the branch was picked first and is evaluated at one site: lazy iff the pick depends on the Bool value
+            # of the condition and the condition is evaluated before it
+            cond = [x for x in tern if prov_root(x[1])[1] == 0]
+            for (c, p, ps, n) in sels:
+                key = 'O3|%s' % body.name
+                problems = []
+                if not cond or not all(body.dominates(cc[0].bb, c.bb) for cc in cond):
+                    problems.append('the selected branch is not dominated by the evaluation of the condition')
+                else:
+                    defs = _selection_defs(em, body, c.args[0])
+                    if not defs[1] or not defs[2]:
+                        problems.append('cannot find where the branch is selected')
+                    else:
+                        class _At:      # a stand-in "site" at the block where one alternative is picked
+                            def __init__(self, bb): self.bb = bb
+                        if not all(_dominated_by_bool_switch(em, body, cond[0][0], _At(bb)) for bb in defs[1] | defs[2]) or (defs[1] & defs[2]):
+                            problems.append('the selection of the branch is not control-dependent on the Bool value of the condition')
+                if [x for x in tern if prov_root(x[1])[1] in (1, 2)]:
+                    problems.append('a branch is also evaluated at a site of its own')
+                if problems:
+                    obs.append(bad('ORDER-O3', key, 'conditional not lazy: ' + '; '.join(problems), body.where(), body=body.name))
+                else:
+                    obs.append(ok('ORDER-O3', key, 'the branch is selected on the Bool value of the condition (after it was evaluated) and evaluated at a single site: the other branch is never evaluated', body.where()))
+            tern = []
         if tern:
             cond = [x for x in tern if prov_root(x[1])[1] == 0]
             br = [x for x in tern if prov_root(x[1])[1] in (1, 2)]
@@ -513,6 +547,46 @@ def rule_order(em):
             else:
                 obs.append(ok('ORDER-O7', key, 'key (.0) and value (.1) of each entry are both evaluated', body.where()))
     return obs, n_sites
+
+
+def _selection_defs(em, body, op):
+    """{1: blocks, 2: blocks}: where, on the way back from a selected reference, a local with several definitions is
+    given a value that is one particular branch (Ternary.1 / Ternary.2)"""
+    du = defuse(body)
+    out = {1: set(), 2: set()}
+    seen = set()
+
+    def src_ops(d):
+        if d[2] == 'assign':
+            rv = d[3]
+            if rv['k'] == 'use':
+                return [rv['op']]
+            if rv['k'] == 'ref':
+                return [{'k': 'copy', 'pl': rv['pl']}]
+            if rv['k'] == 'agg' and rv.get('variant') in ('Ok', 'Some') and rv['ops']:
+                return [rv['ops'][0]]
+            return []
+        if d[2] == 'call' and d[3].callee == TRY_BRANCH and d[3].args:
+            return [d[3].args[0]]
+        return []
+
+    def walk(pl, depth=0):
+        if pl is None or depth > 16 or (pl['l'], depth > 0 and False) in seen:
+            return
+        seen.add((pl['l'], False))
+        defs = du.whole_defs(pl['l'])
+        for d in defs:
+            for o in src_ops(d):
+                if o['k'] not in ('move', 'copy'):
+                    continue
+                if len(defs) > 1:
+                    p = em.prov_of_operand(body, o, 1)
+                    if p is not None and p[0] == 'F' and p[1] == 'Ternary' and p[2] in (1, 2):
+                        out[p[2]].add(d[0])
+                        continue
+                walk(o['pl'], depth + 1)
+    walk(op_place(op))
+    return out
 
 
 def _same_loop_item(pa, pb):
